@@ -744,10 +744,8 @@ class Obs:
         return _format_uncertainty(self.value, self._dvalue)
 
     def __format__(self, format_type):
-        if format_type == "":
-            significance = 2
-        else:
-            significance = int(float(format_type.replace("+", "").replace("-", "")))
+        digits = format_type.replace("+", "").replace("-", "").strip()
+        significance = 2 if digits == "" else int(float(digits))
         my_str = _format_uncertainty(self.value, self._dvalue,
                                      significance=significance)
         for char in ["+", " "]:
@@ -1042,11 +1040,8 @@ class CObs:
         return 'CObs[' + str(self) + ']'
 
     def __format__(self, format_type):
-        if format_type == "":
-            significance = 2
-            format_type = "2"
-        else:
-            significance = int(float(format_type.replace("+", "").replace("-", "")))
+        digits = format_type.replace("+", "").replace("-", "").strip()
+        significance = 2 if digits == "" else int(float(digits))
         return f"({self.real:{format_type}}{self.imag:+{significance}}j)"
 
 
